@@ -52,7 +52,9 @@ type vm11Shape struct {
 	tail    bool // big: one more row follows the one that reaches the threshold
 }
 
-func vm11EntryShape(n int) vm11Shape { return vm11Shape{name: fmt.Sprintf("entries=%d", n), entries: n} }
+func vm11EntryShape(n int) vm11Shape {
+	return vm11Shape{name: fmt.Sprintf("entries=%d", n), entries: n}
+}
 
 var (
 	vm11ShapeBigLast  = vm11Shape{name: "bytes-last-entry-trips-threshold", big: true}
@@ -431,8 +433,8 @@ func vm11Boundary(shape vm11Shape, imp vm11Importer) *vm11BoundaryResult {
 			}
 			if done == 1 && st != refState {
 				violate("C11:meta-acknowledged-import-incomplete-after-"+mode,
-					"%s: the restore of a %d-entry stream had returned success but the reopened hash slot re-exports %d of %d entries (old generation deleted, last install batch missing) and nothing will retry it",
-					where, len(sizes), got, refCount)
+					"%s: the restore of a %d-entry stream had returned success but the reopened hash slot re-exports %d of %d entries (%s) and nothing will retry it",
+					where, len(sizes), got, refCount, map[bool]string{true: "the old generation is gone, the last install batch is missing", false: "the last install batch is missing"}[stale])
 			}
 			if st != refState && st != staleState {
 				intermediate++
